@@ -53,6 +53,10 @@ def root() -> Path:
         (src / "code" / "alias.yaml").write_text("a: &x\n  b: *x\n")
         (src / "code" / "tab.yaml").write_text("a:\n\tb: 1\n")
         (src / "includes" / "a.rst").write_text("included\n")
+        # symbolic links that lead nowhere: onto themselves, to a missing file
+        os.symlink("loop.py", src / "code" / "loop.py")
+        os.symlink("loop.png", src / "images" / "loop.png")
+        os.symlink("gone.py", src / "code" / "dangling.py")
         (_ROOT / "snooty.toml").write_text('name = "verif"\n')
 
         def _cleanup(path=_ROOT, pid=_ROOT_PID):
